@@ -58,6 +58,9 @@ def run_mutant(path):
     finally:
         shutil.rmtree(tmp,ignore_errors=True)
 def main():
+    summary=None
+    if '--summary' in sys.argv:
+        i=sys.argv.index('--summary'); summary=sys.argv[i+1]; del sys.argv[i:i+2]
     args=[a for a in sys.argv[1:] if not a.startswith('-')]
     j=4
     if '-j' in sys.argv: j=int(sys.argv[sys.argv.index('-j')+1]); args=[a for a in args if a!=str(j)]
@@ -65,11 +68,15 @@ def main():
     for d in sorted(glob.glob(f'{ROOT}/mutants/C*')):
         if args and os.path.basename(d) not in args: continue
         paths+=sorted(glob.glob(d+'/*.diff'))
-    bad=0
+    bad=0; res=[]
     with ThreadPoolExecutor(j) as ex:
         for path,status,info in ex.map(run_mutant,paths):
             print(f'{status:16s} {os.path.relpath(path,ROOT)}  {info if status!="caught" else "-> "+info}')
             if status in('MISSED','does-not-compile'): bad+=1
+            res.append({"mutant":os.path.relpath(path,ROOT),"status":status,"rules_fired":info if status=="caught" else ""})
     print(f'{len(paths)} mutants, {bad} not caught')
+    if summary:
+        json.dump({"mutants":len(res),"detected":sum(1 for r in res if r["status"]=="caught"),"stale_patch":sum(1 for r in res if r["status"]=="stale"),
+                   "not_detected":[r["mutant"] for r in res if r["status"] in("MISSED","does-not-compile")],"results":res},open(summary,'w'),indent=1)
     sys.exit(1 if bad else 0)
 main()
